@@ -20,11 +20,11 @@ from optilint.expr import Algebra, NotPolynomial, Rat, Poly
 from .common import src, expand, same, calls_in, actual
 
 LEVEL = "proof"
-RULE_TEXT = "obligations = polynomial identities obtained by symbolic execution of predict/correct + factor/field agreement of the inertia term"
-EXPLANATION = ("Symbolic execution (exact rational normal forms) of the predictor and corrector closures of "
-               "Mechanics.create_dynamics_functions and comparison with the Newmark update formulas; algebraic agreement of the "
-               "inertia scaling between the algorithmic energy, the element Hessian and the corrector. Conservation "
-               "properties of trajectories are not decided.")
+RULE_TEXT = "obligations = rational identities on the results of abstractly interpreting the dynamics factory's closures (predict/correct, energy, Hessian density)"
+EXPLANATION = ("Abstract interpretation (optilint.tensoreval, exact rational normal forms, integrals represented by their integrand at a generic "
+               "point, opaque material energy) of Mechanics.create_dynamics_functions and the closures it returns; comparison with the Newmark "
+               "update formulas; the gradient of the energy's inertia part, the corrector's acceleration and the Hessian density's inertia part "
+               "carry the same rho/(beta dt^2). Conservation properties of trajectories are not decided.")
 
 M = "optimism.Mechanics"
 
@@ -40,223 +40,247 @@ def run(ctx):
     ctx.assume("dt > 0, beta > 0")
 
 
-def symexec(fn_node, A: Algebra, env):
-    """Straight-line symbolic execution: Assign / AugAssign / Return (tuple)."""
-    env = dict(env)
+class _Model:
+    """Mechanics.create_dynamics_functions interpreted by optilint.tensoreval on symbolic data.
 
-    def low(e):
-        a2 = Algebra(env={k: v for k, v in env.items()})
-        a2.rules = A.rules
-        return a2.lower(e)
-    for st in fn_node.body:
-        if isinstance(st, ast.Assign) and len(st.targets) == 1 and isinstance(st.targets[0], ast.Name):
-            env[st.targets[0].id] = low(st.value)
-        elif isinstance(st, ast.AugAssign) and isinstance(st.target, ast.Name):
-            cur = env.get(st.target.id, A.atom(st.target.id))
-            v = low(st.value)
-            if isinstance(st.op, ast.Add):
-                env[st.target.id] = A.norm(cur + v)
-            elif isinstance(st.op, ast.Sub):
-                env[st.target.id] = A.norm(cur - v)
-            elif isinstance(st.op, ast.Mult):
-                env[st.target.id] = A.norm(cur * v)
-            else:
-                raise NotPolynomial(src(st))
-        elif isinstance(st, ast.Return):
-            v = st.value
-            if isinstance(v, ast.Tuple):
-                return [low(e) for e in v.elts]
-            return [low(v)]
-        elif isinstance(st, ast.Expr) and isinstance(st.value, ast.Constant):
-            continue
-        else:
-            raise NotPolynomial("statement not supported: " + src(st)[:60])
-    raise NotPolynomial("no return")
+    Integration over the mesh is linear in the integrand and interpolation is linear and pointwise in the nodal field, so an
+    integral is represented by its integrand at one generic point: integrate_over_block(fs, field, state, dt, density, ...) evaluates
+    density(w, grad w, q, x, dt) with w = the field expression itself (entries u_i, p_i, ...) and grad w = the same linear combination
+    of gradient symbols (G_u_ij, or Gm_u_ij when a gradient transformation is passed).  The material's strain energy is an opaque
+    function SE@(arguments).  The vmapped element-stiffness kernel is represented by the density it is given, evaluated the same way.
+    """
 
+    def __init__(self, ctx):
+        from optilint.tensoreval import Interp, Dual, Arr, PyFunc, Record, _A, Closure
+        from optilint.expr import simplify
+        self.ctx = ctx
+        self.mod = ctx.need_module(M)
+        I = self.I = Interp(ctx.repo)
+        self.A = _A
+        self.Dual, self.Arr, self.Record, self.PyFunc = Dual, Arr, Record, PyFunc
+        S = self.S = lambda n: Dual(_A.atom(n))
+        self.fields = {"u": Arr([S("u0"), S("u1")], (2,)), "p": Arr([S("p0"), S("p1")], (2,))}
+        self.kernel_calls = []
 
-def _closure(fac, name):
-    for c in fac.children:
-        if c.kind == "function" and c.name == name:
-            return c
-    return None
+        def key(v):
+            if isinstance(v, Arr):
+                return "[" + ",".join(key(x) for x in v.data) + "]"
+            if isinstance(v, Dual) or isinstance(v, (int, float)):
+                return repr(simplify(I.num(v).a))
+            return repr(v)
+        self.key = key
+
+        def strain(it, args, kw):
+            return Dual(_A.atom("SE@(" + ";".join(key(a) for a in args) + ")"))
+        self.strain = PyFunc("strain_energy_density", strain)
+
+        def grad_of(field, modified):
+            """the same linear combination of gradient symbols as `field` is of nodal symbols"""
+            pre = "Gm_" if modified else "G_"
+            rows = []
+            for i in range(2):
+                row = []
+                for j in range(2):
+                    e = I.num(field.data[i]).a
+                    for nm in ("u", "p"):
+                        for c in range(2):
+                            e = _A.subst(e, f"{nm}{c}", _A.atom(f"{pre}{nm}{c}{j}") if c == i else _A.const(0))
+                    row.append(Dual(_A.norm(e)))
+                rows.append(row)
+            return Arr([x for r_ in rows for x in r_], (2, 2))
+        self.grad_of = grad_of
+
+        def point_density(field, state, dt, density, modified, extra=()):
+            if not isinstance(field, Arr) or field.shape != (2,):
+                from optilint.tensoreval import EvalError
+                raise EvalError("field argument is not a 2-vector expression of the symbolic fields")
+            return I.num(I.call(density, [field, grad_of(field, modified), state, S("X")] + [dt] + list(extra), {}))
+
+        def is_modifier(v):
+            return v is not None and not (isinstance(v, Closure) and v.scope.name == "default_modify_element_gradient")
+
+        def integrate(it, args, kw):
+            fs, field, state, dt, func = args[:5]
+            extra = args[6:]
+            mod_ = kw.get("modify_element_gradient")
+            # the density receives (w, grad w, q, x, *params) with params = (dt, *extra) in this library's kernels
+            return point_density(field, state, dt, func, is_modifier(mod_), extra)
+        I.special["optimism.FunctionSpace:integrate_over_block"] = integrate
+
+        def kernel(it, args, kw):
+            field, coords, state, dt, conn, shp, shpg, vols, density = args[:9]
+            mod_ = args[9] if len(args) > 9 else kw.get("modify_element_gradient")
+            v = point_density(field, state, dt, density, is_modifier(mod_))
+            self.kernel_calls.append(v)
+            return v
+        I.special[f"{M}:compute_element_stiffness_from_global_fields"] = kernel
+
+        def vmap(it, args, kw):
+            f = args[0]
+            return PyFunc("vmapped", lambda it2, a, k, f=f: it2.call(f, a, k))
+        I.ext_special["jax.vmap"] = vmap
+        I.ext_special["jax.jit"] = lambda it, args, kw: args[0]
+        I.ext_special["jax.value_and_grad"] = lambda it, args, kw: PyFunc("value_and_grad", lambda *a: None)
+
+    def factory(self):
+        S, Record = self.S, self.Record
+        fs = Record("FunctionSpace", ["mesh", "shapes", "shapeGrads", "vols", "quadratureRule"],
+                    [Record("Mesh", ["coords", "conns"], [S("coords"), S("conns")]), S("shapes"), S("shapeGrads"), S("vols"), S("quadratureRule")])
+        mat = Record("MaterialModel", ["compute_energy_density", "compute_initial_state", "compute_state_new", "density"],
+                     [self.strain, self.PyFunc("initial_state", lambda *a: S("q0")), self.PyFunc("state_new", lambda *a: S("q1")), S("rho")])
+        nm = Record("NewmarkParameters", ["gamma", "beta"], [S("gamma"), S("beta")])
+        return self.I.call(self.I.module_value(self.mod, "create_dynamics_functions"), [fs, "plane strain", mat, nm], {})
+
+    def split(self, v):
+        """(part without strain-energy atoms, part with them) of a scalar value"""
+        from optilint.expr import Rat, Poly
+        A = self.A
+        r = A.norm(self.I.num(v).a)
+        if not r.d.is_const():
+            # common denominator: split the numerator
+            pass
+        kin, se = {}, {}
+        for mono, c in r.n.t.items():
+            (se if any(a.startswith("SE@") for a, _e in mono) else kin)[mono] = c
+        return A.norm(Rat(Poly(kin), r.d)), A.norm(Rat(Poly(se), r.d))
 
 
 def d1(ctx):
     rule = "D1/T7-newmark-formulas"
+    from optilint.tensoreval import EvalError, Raised
     fac = ctx.need(f"{M}:create_dynamics_functions")
-    pred, corr = _closure(fac, "predict"), _closure(fac, "correct")
-    if pred is None or corr is None:
-        raise Incomplete("predict/correct closures not found in create_dynamics_functions")
-    ctx.touch(pred)
-    ctx.touch(corr)
-    npar = [p for p in fac.params() if "newmark" in p.lower()]
-    if not npar:
-        raise Incomplete("Newmark parameter object not found among the factory parameters")
-    np_ = npar[0]
-    A = Algebra()
-    beta, gamma = A.atom("beta"), A.atom("gamma")
-    base = {f"{np_}.beta": beta, f"{np_}.gamma": gamma}
-    pu, pv, pa, pdt = pred.params()
-    U, V, Ac, dt, A1 = A.atom("U"), A.atom("V"), A.atom("A"), A.atom("dt"), A.atom("A1")
+    mdl = _Model(ctx)
+    I, A, S = mdl.I, mdl.A, mdl.S
     try:
-        Up, Vp = symexec(pred.node, A, dict(base, **{pu: U, pv: V, pa: Ac, pdt: dt}))
-    except (NotPolynomial, ValueError) as ex:
-        ctx.undecided(rule, pred, None, construct="predict", detail=f"cannot execute symbolically: {ex}")
+        fns = mdl.factory()
+        predict, correct = fns.get("predict"), fns.get("correct")
+    except (EvalError, Raised, KeyError, ValueError, TypeError, AttributeError, IndexError) as ex:
+        ctx.undecided(rule, fac, None, construct="factory", detail=f"cannot interpret create_dynamics_functions: {ex}")
         return
-    half = A.const(1) / A.const(2)
-    U1 = A.norm(U + dt * V + dt * dt * ((half - beta) * Ac + beta * A1))
-    V1 = A.norm(V + dt * ((A.const(1) - gamma) * Ac + gamma * A1))
-    cu, cv, ca, cdt = corr.params()
+    U, V, Ac, dt, A1 = S("U"), S("V"), S("A"), S("dt"), S("A1")
+    beta, gamma = S("beta"), S("gamma")
+    half = mdl.Dual(A.const(1) / A.const(2))
+    one = mdl.Dual(A.const(1))
     try:
-        Vc, Acode = symexec(corr.node, A, dict(base, **{cu: A.norm(U1 - Up), cv: Vp, ca: Ac, cdt: dt}))
-    except (NotPolynomial, ValueError) as ex:
-        ctx.undecided(rule, corr, None, construct="correct", detail=f"cannot execute symbolically: {ex}")
+        Up, Vp = I.call(predict, [U, V, Ac, dt], {})
+        U1 = U + dt * V + dt * dt * ((half - beta) * Ac + beta * A1)
+        V1 = V + dt * ((one - gamma) * Ac + gamma * A1)
+        Vc, Acode = I.call(correct, [I.num(U1) - I.num(Up), Vp, Ac, dt], {})
+    except (EvalError, Raised, KeyError, ValueError, TypeError, AttributeError, IndexError) as ex:
+        ctx.undecided(rule, fac, None, construct="predict/correct", detail=f"cannot interpret predict / correct: {ex}")
         return
-    ctx.decide(rule, A.equal(Acode, A1), corr, None, construct="acceleration-consistent-with-displacement-update",
+    eq = lambda a, b: A.equal(I.num(a).a, I.num(b).a)
+    ctx.decide(rule, eq(Acode, A1), fac, None, construct="acceleration-consistent-with-displacement-update",
                detail="correct(U_{n+1} - U_pred) returns A_{n+1} for U_{n+1} = U + dt V + dt^2[(1/2-beta)A + beta A_{n+1}]",
-               bad_detail=f"with U_(n+1) from the Newmark displacement formula, correct() returns the acceleration {Acode!r} instead of A_(n+1): "
+               bad_detail=f"with U_(n+1) from the Newmark displacement formula, correct() returns the acceleration {I.num(Acode).a!r} instead of A_(n+1): "
                           f"predictor/corrector do not realise U_(n+1) = U + dt V + dt^2[(1/2-beta)A + beta A_(n+1)]")
-    ctx.decide(rule, A.equal(Vc, V1), corr, None, construct="velocity-update",
+    ctx.decide(rule, eq(Vc, V1), fac, None, construct="velocity-update",
                detail="V_{n+1} = V + dt[(1-gamma)A + gamma A_{n+1}]",
-               bad_detail=f"predict+correct give V_(n+1) = {Vc!r}, but the Newmark formula is {V1!r}")
-    # (return order is positional in the symbolic results above: element 0/1 of predict are U_pred/V_pred, of correct V/A)
-    # the factory exposes them in the predict / correct slots of DynamicsFunctions
-    cls = ctx.need(f"{M}:DynamicsFunctions")
-    fields = [st.target.id for st in cls.node.body if isinstance(st, ast.AnnAssign) and isinstance(st.target, ast.Name)]
-    for r in fac.returns():
-        if isinstance(r, ast.Call) and src(r.func) == "DynamicsFunctions":
-            args = [src(a) for a in r.args]
-            for want, fname in (("predict", "predict"), ("correct", "correct")):
-                if fname in fields and len(args) == len(fields):
-                    got = args[fields.index(fname)]
-                    ok = got in (want, f"jit({want})")
-                    ctx.decide(rule, ok, fac, r, construct=f"slot:{fname}", detail=f"{fname} <- {got}",
-                               bad_detail=f"DynamicsFunctions.{fname} is filled with `{got}`")
+               bad_detail=f"predict+correct give V_(n+1) = {I.num(Vc).a!r}, but the Newmark formula is {I.num(V1).a!r}")
+    # the predictor alone: U_pred = U + dt V + dt^2 (1/2 - beta) A, V_pred = V + dt (1 - gamma) A  (what the energy's inertia term is centred on)
+    ctx.decide(rule, eq(Up, U + dt * V + dt * dt * (half - beta) * Ac) and eq(Vp, V + dt * (one - gamma) * Ac), fac, None, construct="predictor",
+               detail="U_pred = U + dt V + dt^2 (1/2 - beta) A, V_pred = V + dt (1 - gamma) A",
+               bad_detail=f"predict returns U_pred = {I.num(Up).a!r}, V_pred = {I.num(Vp).a!r}")
+    for q in sorted(I.visited):
+        sc = ctx.repo.find(q)
+        if sc is not None:
+            ctx.touch(sc)
 
 
 def d2(ctx):
     rule = "D2/T7-inertia-wiring"
-    lag = ctx.need(f"{M}:compute_newmark_lagrangian")
-    hes = ctx.need(f"{M}:_compute_newmark_element_hessians")
-    ked = ctx.need(f"{M}:kinetic_energy_density")
+    from optilint.tensoreval import EvalError, Raised
     fac = ctx.need(f"{M}:create_dynamics_functions")
-    corr = _closure(fac, "correct")
+    lag = ctx.need(f"{M}:compute_newmark_lagrangian")
+    hes = ctx.need(f"{M}:_compute_newmark_element_hessians") if ctx.repo.find(f"{M}:_compute_newmark_element_hessians") else fac
+    ked = ctx.need(f"{M}:kinetic_energy_density")
+    mdl = _Model(ctx)
+    I, A, S = mdl.I, mdl.A, mdl.S
+    ERR = (EvalError, Raised, KeyError, ValueError, TypeError, AttributeError, IndexError)
+    num = lambda v: I.num(v).a
     # kinetic density = 1/2 rho <V,V>
-    vn, rho = ked.params()
-    A = Algebra(vector_atoms={vn})
-    r = ked.returns()
     try:
-        got = A.lower(r[0])
-        want = A.norm(A.const(1) / A.const(2) * A.atom(rho) * A.atom(f"<{vn},{vn}>"))
-        ok = A.equal(got, want)
-    except (NotPolynomial, IndexError):
-        ok = None
-    ctx.decide(rule, ok, ked, r[0] if r else None, construct="kinetic-density", detail="1/2 rho v.v",
-               bad_detail=f"kinetic energy density is `{src(r[0]) if r else '?'}`, not 1/2*density*dot(V,V)")
-    # energy: KE integrated over (U - UPredicted), then scaled
-    cfg = cfg_of(lag)
-    lp = lag.params()
-    Un, Upn, dtn, bn = lp[1], lp[2], lp[5], lp[6]
-    B = Algebra()
-    ke_nodes = [n for n in cfg.nodes if n.kind == "stmt" and isinstance(n.ast, ast.Assign) and "integrate_over_block" in src(n.ast)
-                and any("kinetic_energy_density" in src(d.ast) for d in cfg.reaching(n, "lagrangian_density") if d.ast is not None)]
-    if len(ke_nodes) != 1:
-        ctx.undecided(rule, lag, None, construct="kinetic-term", detail=f"{len(ke_nodes)} kinetic integrals found")
-        return
-    ken = ke_nodes[0]
-    kname = ken.ast.targets[0].id
-    call = ken.ast.value
-    iob = ctx.need("optimism.FunctionSpace:integrate_over_block")
-    fld = actual(call, iob.params(), "U")
-    ok = same(fld, f"{Un} - {Upn}")
-    ctx.decide(rule, ok, lag, call, construct="kinetic-field", detail=f"kinetic energy of {src(fld)}",
-               bad_detail=f"the inertia term integrates the kinetic density of `{src(fld)}`, not of {Un} - {Upn}")
-    scal = [n for n in cfg.nodes if n.kind == "stmt" and isinstance(n.ast, ast.AugAssign) and isinstance(n.ast.target, ast.Name)
-            and n.ast.target.id == kname and isinstance(n.ast.op, ast.Mult)]
-    if len(scal) != 1:
-        ctx.undecided(rule, lag, None, construct="inertia-factor", detail=f"{len(scal)} scalings of the kinetic term")
-        return
+        got = num(I.call(I.module_value(mdl.mod, "kinetic_energy_density"), [mdl.fields["u"], S("rho")], {}))
+        want = A.norm(A.const(1) / A.const(2) * A.atom("rho") * (A.atom("u0") * A.atom("u0") + A.atom("u1") * A.atom("u1")))
+        ctx.decide(rule, A.equal(got, want), ked, None, construct="kinetic-density", detail="1/2 rho v.v",
+                   bad_detail=f"kinetic energy density of v is {got!r}, not 1/2*density*dot(v, v)")
+    except ERR as ex:
+        ctx.undecided(rule, ked, None, construct="kinetic-density", detail=f"cannot interpret: {ex}")
     try:
-        f_energy = B.lower(scal[0].ast.value)
-        want = B.norm(B.const(1) / (B.atom(bn) * B.atom(dtn) * B.atom(dtn)))
-        ok = B.equal(f_energy, want)
-    except NotPolynomial:
-        ok = None
-        f_energy = None
-    ctx.decide(rule, ok, lag, scal[0].ast, construct="inertia-factor-energy", detail="KE scaled by 1/(beta dt^2)",
-               bad_detail=f"kinetic term is scaled by {f_energy!r}, not 1/({bn}*{dtn}^2)")
-    # returned energy = SE + KE (unweighted sum)
-    rets = lag.returns()
-    okr = len(rets) == 1 and isinstance(rets[0], ast.BinOp) and isinstance(rets[0].op, ast.Add) and \
-        kname in (src(rets[0].left), src(rets[0].right))
-    ctx.decide(rule, okr, lag, rets[0] if rets else None, construct="energy-sum", detail="algorithmic energy = strain + scaled kinetic",
-               bad_detail=f"algorithmic energy returns `{src(rets[0]) if rets else '?'}`")
-    # corrector factor
-    if corr is not None:
-        cu, cv, ca, cdt = corr.params()
-        np_ = [p for p in fac.params() if "newmark" in p.lower()][0]
-        C = Algebra()
-        try:
-            _, Acode = symexec(corr.node, C, {f"{np_}.beta": C.atom(bn), f"{np_}.gamma": C.atom("gamma"), cu: C.atom("W"), cv: C.atom("V"),
-                                              ca: C.atom("A"), cdt: C.atom(dtn)})
-            ok = C.equal(Acode, C.norm(C.atom("W") / (C.atom(bn) * C.atom(dtn) * C.atom(dtn))))
-        except (NotPolynomial, ValueError):
-            ok = None
-            Acode = None
-        ctx.decide(rule, ok, corr, None, construct="inertia-factor-corrector",
+        fns = mdl.factory()
+    except ERR as ex:
+        ctx.undecided(rule, fac, None, construct="factory", detail=f"cannot interpret create_dynamics_functions: {ex}")
+        return
+    u, p = mdl.fields["u"], mdl.fields["p"]
+    q, dt = S("Q"), S("dt")
+    scale = A.atom("rho") / (A.atom("beta") * A.atom("dt") * A.atom("dt"))
+    se_want = A.atom("SE@(" + mdl.key(mdl.grad_of(u, True)) + ";" + mdl.key(q) + ";" + mdl.key(dt) + ")")
+    # ---- algorithmic energy
+    try:
+        E = I.call(fns.get("compute_algorithmic_energy"), [u, p, q, dt], {})
+        kin, se = mdl.split(E)
+    except ERR as ex:
+        ctx.undecided(rule, lag, None, construct="energy", detail=f"cannot interpret compute_algorithmic_energy: {ex}")
+        kin = se = None
+    if kin is not None:
+        ctx.decide(rule, A.equal(se, se_want), lag, None, construct="energy:strain-part",
+                   detail="strain energy of U (with the factory's gradient transformation), weight 1",
+                   bad_detail=f"the strain part of the algorithmic energy is {se!r}; it must be the material's energy density of the (transformed) gradient of U, "
+                              f"the state and dt: {se_want!r}")
+        bad = None
+        for i in range(2):
+            g = A.norm(A.diff(kin, f"u{i}"))
+            w = A.norm(scale * (A.atom(f"u{i}") - A.atom(f"p{i}")))
+            if not A.equal(g, w):
+                bad = f"d(inertia term)/dU_{i} = {g!r}, but M A_(n+1) needs rho*(U_{i} - UPredicted_{i})/(beta*dt^2) = {w!r}"
+                break
+        ctx.decide(rule, bad is None, lag, None, construct="energy:inertia-gradient",
+                   detail="d(inertia term)/dU = rho (U - U_pred)/(beta dt^2) = M A_{n+1} with the corrector's A_{n+1}",
+                   bad_detail=f"{bad}: the minimiser of the algorithmic energy would not satisfy f_int + M A_(n+1) = 0")
+    # ---- corrector: A_{n+1} = (U - U_pred)/(beta dt^2)
+    try:
+        W = S("W")
+        _, Acode = I.call(fns.get("correct"), [W, S("V"), S("A"), dt], {})
+        okc = A.equal(num(Acode), A.norm(A.atom("W") / (A.atom("beta") * A.atom("dt") * A.atom("dt"))))
+        ctx.decide(rule, okc, fac, None, construct="inertia-factor-corrector",
                    detail="A_{n+1} = (U - U_pred)/(beta dt^2): same factor as the inertia term, so d(energy)/dU = f_int + M A_{n+1}",
-                   bad_detail=f"corrector computes the acceleration as {Acode!r}; the inertia term of the energy uses 1/({bn}*{dtn}^2): "
+                   bad_detail=f"corrector computes the acceleration as {num(Acode)!r}; the inertia term of the energy uses 1/(beta*dt^2): "
                               f"the minimiser would not satisfy f_int + M A_(n+1) = 0")
-    # Hessian density factor
-    hd = [c for c in hes.children if c.kind == "function"]
-    okh = None
-    shown = "?"
-    if hd:
-        dens = hd[0]
-        W, gW, Q, X, dtime = dens.params()[:5]
-        rr = dens.returns()
-        if rr:
-            terms = []
-
-            def flat(x):
-                if isinstance(x, ast.BinOp) and isinstance(x.op, ast.Add):
-                    flat(x.left)
-                    flat(x.right)
-                else:
-                    terms.append(x)
-            flat(rr[0])
-            kin = [t for t in terms if "kinetic_energy_density" in src(t)]
-            if len(kin) == 1:
-                D = Algebra()
-                try:
-                    val = D.lower(kin[0])
-                    katom = [a for a in val.atoms() if a.startswith("kinetic_energy_density")]
-                    want = D.norm(D.atom(katom[0]) / (D.atom(hes.params()[6]) * D.atom(dtime) * D.atom(dtime))) if katom else None
-                    okh = want is not None and D.equal(val, want)
-                    shown = repr(val)
-                except NotPolynomial:
-                    okh = None
-        # dtime is bound to the dt argument at the kernel call
-        ctx.decide(rule, okh, hes, rr[0] if hd and rr else None, construct="inertia-factor-hessian",
-                   detail="Hessian density: kinetic/(beta dt^2) + strain", bad_detail=f"Hessian density scales the kinetic term as {shown}")
-    # factory wiring: same parameter object
-    np_ = [p for p in fac.params() if "newmark" in p.lower()][0]
-    for cname, callee, pname in (("compute_algorithmic_energy", "compute_newmark_lagrangian", "newmarkBeta"),
-                                 ("compute_element_hessians", "_compute_newmark_element_hessians", "newmarkBeta")):
-        cl = _closure(fac, cname)
-        tgt = ctx.need(f"{M}:{callee}")
-        ok = False
-        got = "?"
-        if cl is not None:
-            for c in calls_in(cl):
-                if (dotted(c.func) or "").endswith(callee):
-                    a = actual(c, tgt.params(), pname)
-                    got = src(a)
-                    ok = got == f"{np_}.beta"
-                    d_ = actual(c, tgt.params(), "dt")
-                    ok = ok and isinstance(d_, ast.Name) and d_.id in cl.params()
-        ctx.decide(rule, ok, fac, None, construct=f"wiring:{cname}", detail=f"{callee}(..., newmarkBeta={got}, dt=<closure dt>)",
-                   bad_detail=f"{cname} passes newmarkBeta={got} to {callee}; predictor/corrector use {np_}.beta")
+    except ERR as ex:
+        ctx.undecided(rule, fac, None, construct="inertia-factor-corrector", detail=f"cannot interpret correct: {ex}")
+    # ---- element Hessians: density handed to the stiffness kernel
+    try:
+        del mdl.kernel_calls[:]
+        H = I.call(fns.get("compute_element_hessians"), [u, p, q, dt], {})
+        kinh, seh = mdl.split(H)
+    except ERR as ex:
+        ctx.undecided(rule, hes, None, construct="hessian", detail=f"cannot interpret compute_element_hessians: {ex}")
+        kinh = None
+    if kinh is not None:
+        ctx.decide(rule, bool(mdl.kernel_calls) and A.equal(seh, se_want), hes, None, construct="hessian:strain-part",
+                   detail="the Hessian density contains the strain energy linearised about U, weight 1",
+                   bad_detail=f"the strain part of the Hessian density is {seh!r}; it must be {se_want!r} (linearised about U, not about U - UPredicted)")
+        bad = None
+        for i in range(2):
+            for j in range(2):
+                h = A.norm(A.diff(A.diff(kinh, f"u{i}"), f"u{j}"))
+                w = A.norm(scale) if i == j else A.const(0)
+                if not A.equal(h, w):
+                    bad = f"d2(inertia density)/dU_{i}dU_{j} = {h!r}, expected {w!r}"
+        ctx.decide(rule, bad is None, hes, None, construct="inertia-factor-hessian",
+                   detail="Hessian of the inertia density = rho/(beta dt^2) I: the same factor as the energy and the corrector",
+                   bad_detail=f"{bad}: the tangent is not the derivative of the algorithmic energy's gradient")
+    # ---- direct (non-factory) entry point agrees with the factory wiring: same density, beta and dt reach compute_newmark_lagrangian
+    try:
+        E2 = I.call(I.module_value(mdl.mod, "compute_newmark_lagrangian"),
+                    [S("fs"), u, p, q, S("rho"), dt, S("beta"), mdl.strain, mdl.PyFunc("modify", lambda *a: None)], {})
+        ok = kin is not None and A.equal(num(E2), num(E))
+        ctx.decide(rule, ok, fac, None, construct="wiring:compute_algorithmic_energy",
+                   detail="compute_algorithmic_energy = compute_newmark_lagrangian(density=materialModel.density, dt, beta=newmarkParameters.beta, material energy, gradient transformation)",
+                   bad_detail=f"the factory's compute_algorithmic_energy gives {num(E)!r} but compute_newmark_lagrangian with the material's density, "
+                              f"the time step and the Newmark beta gives {num(E2)!r}: the factory wires different parameters")
+    except ERR as ex:
+        ctx.undecided(rule, lag, None, construct="wiring:compute_algorithmic_energy", detail=f"cannot interpret compute_newmark_lagrangian: {ex}")
 
 
 def variants(repo):
@@ -283,4 +307,11 @@ def variants(repo):
                                                "        ANew = UCorrection/(newmarkParameters.beta*dt*dt)\n        V += dt*newmarkParameters.gamma*ANew\n        return V, ANew"), None),
         Variant("equivalent predictor form", P, sub("0.5*dt*dt*(1.0 - 2.0*newmarkParameters.beta)*A", "dt*dt*(0.5 - newmarkParameters.beta)*A"), None),
         Variant("equivalent inertia factor", P, sub("    KE *= 1 / (newmarkBeta*dt**2)", "    KE *= 1.0 / (dt*dt*newmarkBeta)"), None),
+        Variant("inertia factor inside the integrand", P, sub("        return kinetic_energy_density(W, density)\n    KE =  FunctionSpace.integrate_over_block(functionSpace, U - UPredicted, internals, dt,\n                                             lagrangian_density, slice(None))\n    KE *= 1 / (newmarkBeta*dt**2)\n",
+                                                               "        return kinetic_energy_density(W, density)/(newmarkBeta*dtime*dtime)\n    KE =  FunctionSpace.integrate_over_block(functionSpace, U - UPredicted, internals, dt,\n                                             lagrangian_density, slice(None))\n"), None),
+        Variant("inertia of the negated difference", P, sub_in_func("compute_newmark_lagrangian", "integrate_over_block(functionSpace, U - UPredicted, internals, dt,", "integrate_over_block(functionSpace, UPredicted - U, internals, dt,"), None),
+        Variant("hessian linearised about U - UPredicted", P, sub("    return f(U, fs.mesh.coords, internals, dt, fs.mesh.conns, fs.shapes, fs.shapeGrads, fs.vols,\n             lagrangian_density, modify_element_gradient)",
+                                                                   "    return f(U - UPredicted, fs.mesh.coords, internals, dt, fs.mesh.conns, fs.shapes, fs.shapeGrads, fs.vols,\n             lagrangian_density, modify_element_gradient)"), "D2/T7-inertia-wiring"),
+        Variant("strain energy without the gradient transformation", P, sub_in_func("compute_newmark_lagrangian", "                                            slice(None), modify_element_gradient=modify_element_gradient)", "                                            slice(None))"), "D2/T7-inertia-wiring"),
+        Variant("strain energy weighted by beta", P, sub_in_func("compute_newmark_lagrangian", "    return SE + KE", "    return newmarkBeta*SE + KE"), "D2/T7-inertia-wiring"),
     ]
